@@ -612,6 +612,7 @@ func init() {
 				c05Run(mods, "main", []string{"family:import-graphs", shape}, "import graph {"+edges+"}: "+strings.Join(ms, "; "), false, r)
 			}},
 			{Name: "declarations-with-invalid-parameter-lists", Count: func(string) int { return c05DeclCount() }, Run: func(_ string, idx int, r *Result) { c05DeclRun(idx, r) }},
+			{Name: "expressions-in-contexts", Count: func(string) int { return c05CtxCount() }, Run: func(_ string, idx int, r *Result) { c05CtxRun(idx, r) }},
 			{Name: "imports-and-uses", Count: func(string) int { return c05ImportCount() }, Run: func(_ string, idx int, r *Result) { c05ImportRun(idx, r) }},
 			// last: the two largest spaces; in the thorough tier they may use up the remaining budget
 			{Name: "strings", Count: func(tier string) int { return 2 * feStringsCount(feLen(tier)) }, Run: func(tier string, idx int, r *Result) {
